@@ -108,8 +108,27 @@ JudgeView(G, e) ==
 DecWhy(d, G, what) == IF d.res # "ok" THEN what \o ": " \o d.res
                       ELSE IF d.err THEN what \o ": the decoder rejects the encoder's output"
                       ELSE IF ObsVs(d.obs, G) # "" THEN what \o ": " \o ObsVs(d.obs, G) ELSE ""
+(* graphs with thousands of vertices and a few edges: size header, total length, and the decoded graph at the listed pairs *)
+PairSet(ps) == { {ps[i][1], ps[i][2]} : i \in 1..Len(ps) }
+JudgeHuge(e) ==
+    LET n == e.n
+        nb == NBytes(n)
+        h == IF e.codec = "g6huge" THEN nb ELSE <<58>> \o nb
+        E == PairSet(e.pairs) IN
+    IF e.res # "ok" THEN e.res
+    ELSE IF Len(e.hdr) < Len(h) \/ SubSeq(e.hdr, 1, Len(h)) # h THEN "the size header differs from the format definition"
+    ELSE IF e.codec = "g6huge" /\ e.len # Len(nb) + ((n * (n - 1)) \div 2 + 5) \div 6 THEN "graph6 string has the wrong length for its size"
+    ELSE IF e.codec = "s6huge" /\ (~InRange(SubSeq(e.enc, 2, Len(e.enc))) \/ ~S6HeaderOK(e.enc, n)) THEN "sparse6 bytes / size header differ from the format definition"
+    ELSE IF e.codec = "s6huge" /\ LET d == S6Decode(e.enc) IN ~d.ok \/ d.G.E # E \/ d.loop THEN "the format definition's reader does not recover the graph from the sparse6 string"
+    ELSE IF e.derr THEN "the decoder rejects the encoder's output"
+    ELSE IF e.dn # n THEN "the decoded graph has a different number of vertices"
+    ELSE IF e.dm # Cardinality(E) THEN "the decoded graph has a different number of edges"
+    ELSE IF \E i \in 1..Len(e.at) : ~e.at[i] THEN "the decoded graph misses an edge"
+    ELSE IF \E i \in 1..Len(e.off) : e.off[i] # ({e.probes[i][1], e.probes[i][2]} \in E) THEN "the decoded graph has an edge that was not encoded"
+    ELSE ""
 JudgeCodec(e) ==
-    IF e.codec = "mcmulti" THEN
+    IF e.codec \in {"g6huge", "s6huge"} THEN JudgeHuge(e)
+    ELSE IF e.codec = "mcmulti" THEN
          IF e.res # "ok" THEN e.res
          ELSE IF Len(e.decs) # Len(e.gs) THEN "MulticodeDecodeMultiple returned the wrong number of graphs"
          ELSE IF \E k \in 1..Len(e.gs) : ObsVs(e.decs[k], GofJ(e.gs[k])) # "" THEN "MulticodeDecodeMultiple: graph differs"
